@@ -63,6 +63,10 @@ fn main() {
             let ctx = Ctx::from_env(&args[2], "quick");
             netcheck::rundigests(&ctx, &args[2], args.get(3).and_then(|s| s.parse().ok()).unwrap_or(2000))
         }
+        "showc07" => {
+            netcheck::show_c07(args[2].parse().unwrap(), args[3].parse().unwrap(), args[4].parse().unwrap(), util::DEFAULT_SEED);
+            0
+        }
         "bigk" => {
             dbg::bigk(args[2].parse().unwrap(), args[3].parse().unwrap(), args[4].parse().unwrap());
             0
